@@ -6,11 +6,15 @@ A case is one wrapped function plus everything observed about it:
    'injected': [2], 'expected': [[6, None], [8, 41]], 'opts': [inject_to_varkw, hide_wrapped],
    'form': 0..3 (how injected/expected are spelled: list / str / dict / update_wrapper()),
    'calls': [[[101,102], [[4,110]]], ...]}
+A case with an 'ops' field instead of injected/expected is a FunctionBuilder history:
+from_func(f), then ['r', x] = remove_arg(x), ['a', z, d] = add_arg(z[, d]), ['k', z, d] = add_arg(z[, d], kwonly=True),
+then body = 'return _call(<get_invocation_str()>)' and get_func().
 Parameter `n` is spelled `p<n>` in the Python source; values (defaults, annotations, call arguments)
 are instances of `V` compared by identity and printed as their number.
 """
 import inspect
 import itertools
+import re
 
 from bv.common import Property, Failure, time_limit, exc_name, CaseTimeout
 
@@ -32,8 +36,23 @@ class Vals(dict):
         return v
 
 
+# parameter ids with a special spelling: the names the builder itself uses in the exec namespace
+SPECIAL = {90: '_call', 91: '_func', 92: '__call', 93: 'fn'}
+SPECIAL_REV = {v: k for k, v in SPECIAL.items()}
+FNAMES = {0: 'fn', 1: '_call', 2: '_func'}
+
+
 def pn(n):
-    return 'p%d' % n
+    return SPECIAL.get(n) or 'p%d' % n
+
+
+def name_id(s):
+    """inverse of pn; None for anything else"""
+    if s in SPECIAL_REV:
+        return SPECIAL_REV[s]
+    if isinstance(s, str) and s[:1] == 'p' and s[1:].isdigit():
+        return int(s[1:])
+    return None
 
 
 def vnum(x):
@@ -74,7 +93,7 @@ def source_of(case):
         parts.append(named(k, kwd.get(k)))
     if case['varkw'] is not None:
         parts.append('**' + named(case['varkw']))
-    head = '%sdef fn(%s)%s:\n' % ('async ' if case['async'] else '', ', '.join(parts),
+    head = '%sdef %s(%s)%s:\n' % ('async ' if case['async'] else '', FNAMES[case.get('fname', 0)], ', '.join(parts),
                                   ' -> A[%d]' % case['ret'] if case['ret'] is not None else '')
     body = ''
     if case['doc'] is not None:
@@ -102,10 +121,10 @@ def dump_locals(d, case):
         return {'notdict': type(d).__name__}
     out = {'named': [], 'star': None, 'dstar': None}
     for k, v in d.items():
-        if not (isinstance(k, str) and k[:1] == 'p' and k[1:].isdigit()):
+        n = name_id(k)
+        if n is None:
             out.setdefault('odd', []).append(str(k))
             continue
-        n = int(k[1:])
         if isinstance(v, tuple):
             out['star'] = [n, [vnum(x) for x in v]]
         elif isinstance(v, dict):
@@ -136,14 +155,14 @@ class C13(Property):
             'sync/async, docstring or none, module or none), an injected list, an expected list, the options, '
             'and a list of call shapes (k positional values x a subset of keyword names incl. unknown ones); '
             'every call is made on the wrapped function directly and through wraps(). Exhaustive: all '
-            'signatures with <=2 positional / <=1 keyword-only (thorough <=3 / <=2) x {plain, every single '
+            'signatures with <=3 positional / <=2 keyword-only (thorough <=4 / <=2) x {plain, every single '
             'injected name, expected with/without default, clashes} x all call shapes; random: up to 6 '
             'positional / 4 keyword-only, multi-step injected+expected. Non-trivial = the builder produced a '
             'function and the call list contains both an accepted and a rejected call, or injected/expected '
             'is non-empty; distinct = distinct case.')
-    ASSUMPTIONS = ['parameter names are identifiers different from the names the builder puts into the exec '
-                   'namespace (_call, _func) and from the function name; no positional-only parameters; the '
-                   'wrapped object is a plain function (no partial / classmethod / builtin)',
+    ASSUMPTIONS = ['no positional-only parameters; the wrapped object is a plain function (no partial / '
+                   'classmethod / builtin); names are abstract in the model - parameters / functions spelled like '
+                   'the builder\'s own exec-namespace names (_call, _func) are exercised by the generators',
                    'values (defaults, annotations, arguments) are compared by identity',
                    'source text is modelled at the granularity of comma-separated items; the text of '
                    'get_sig_str / get_invocation_str is compared character by character via __source__']
@@ -179,8 +198,11 @@ class C13(Property):
         names = [n for n in sig['args'] + sig['kwonly'] if n not in removed] + list(extra_names) + [8]
         npos = len(sig['args']) + len(extra_names)
         calls = []
+        sizes = range(len(names) + 1)
+        if len(names) > 6:      # wide signatures: small and nearly-complete keyword sets only
+            sizes = [r for r in sizes if r <= 2 or r >= len(names) - 1]
         for k in range(npos + 2):
-            for r in range(len(names) + 1):
+            for r in sizes:
                 for ks in itertools.combinations(names, r):
                     calls.append([[100 + j for j in range(k)], [[n, 110 + n] for n in ks]])
         return calls
@@ -211,10 +233,10 @@ class C13(Property):
         if self.thorough:
             kwo_cfgs = [((), ()), ((4,), ()), ((4,), ((4, 24),)), ((4, 5), ()), ((4, 5), ((4, 24),)),
                         ((4, 5), ((5, 25),)), ((4, 5), ((4, 24), (5, 25)))]
-            maxpos = 3
+            maxpos = 4
         else:
-            kwo_cfgs = [((), ()), ((4,), ()), ((4,), ((4, 24),))]
-            maxpos = 2
+            kwo_cfgs = [((), ()), ((4,), ()), ((4,), ((4, 24),)), ((4, 5), ((5, 25),))]
+            maxpos = 3
         i = rng.randrange(64)
         for sig in self.base_sigs(maxpos, kwo_cfgs):
             for inj, exp in self.plans(sig):
@@ -228,9 +250,31 @@ class C13(Property):
                 c['calls'] = self.call_shapes(sig, [z for z, _ in exp if z not in sig['args'] + sig['kwonly']],
                                               [x for x in inj if x not in [z for z, _ in exp]])
                 yield c
-        n_rand = 6000 if self.thorough else 700
+        for c in self.hygiene_cases():
+            yield c
+        n_rand = 20000 if self.thorough else 1500
         for j in range(n_rand):
             yield self.random_case(rng, big=(j % 4 == 0))
+
+    def hygiene_cases(self):
+        """parameters / functions spelled like the names the builder puts into the exec namespace"""
+        sigs = [
+            {'args': [90], 'defaults': [], 'varargs': None, 'kwonly': [], 'kwdefaults': [], 'varkw': None},
+            {'args': [1, 90], 'defaults': [60], 'varargs': 92, 'kwonly': [91], 'kwdefaults': [], 'varkw': None},
+            {'args': [91, 93], 'defaults': [], 'varargs': None, 'kwonly': [90], 'kwdefaults': [[90, 61]], 'varkw': 92},
+            {'args': [1], 'defaults': [], 'varargs': 90, 'kwonly': [], 'kwdefaults': [], 'varkw': 91},
+            {'args': [1, 2], 'defaults': [12], 'varargs': None, 'kwonly': [4], 'kwdefaults': [], 'varkw': 90},
+        ]
+        i = 0
+        for sig in sigs:
+            for fname in (0, 1, 2):
+                for inj, exp in ([], []), ([sig['args'][0]], []), ([], [[6, None]]), ([], [[90, 45]]):
+                    i += 1
+                    c = self.decorate(sig, i)
+                    c.update(injected=inj, expected=exp, opts=[1, 0], form=0, fname=fname)
+                    c['calls'] = self.call_shapes(sig, [z for z, _ in exp if z not in sig['args'] + sig['kwonly']],
+                                                  inj)
+                    yield c
 
     def deep_cases(self, budget_s):
         rng = self.rng
@@ -251,6 +295,8 @@ class C13(Property):
         npos = rng.randint(0, 6 if big else 3)
         nkwo = rng.randint(0, 4 if big else 2)
         pool = list(range(1, 30))
+        if rng.random() < 0.1:
+            pool += [90, 91, 92, 93]
         rng.shuffle(pool)
         args = pool[:npos]
         kwonly = pool[npos:npos + nkwo]
@@ -282,7 +328,7 @@ class C13(Property):
                 else:
                     z = rng.choice([n for n in (va, vk) if n is not None] or fresh)
                 exp.append([z, rng.choice([None, None, 90 + z])])
-        c.update(injected=inj, expected=exp, form=rng.randrange(4),
+        c.update(injected=inj, expected=exp, form=rng.randrange(4), fname=(rng.randrange(3) if rng.random() < 0.05 else 0),
                  opts=[0 if rng.random() < 0.15 else 1, 1 if rng.random() < 0.15 else 0])
         # calls: mostly near-valid
         names = args + kwonly + [z for z, _ in exp] + fresh[:1]
@@ -307,6 +353,15 @@ class C13(Property):
 
         def on(x):
             return '-' if x is None else str(x)
+        if 'ops' in case:
+            ops = ','.join(('r%d' % op[1]) if op[0] == 'r' else '%s%d:%s' % (op[0], op[1], on(op[2]))
+                           for op in case['ops']) or '-'
+            toks = ['B', nl(case['args']), nl(case['defaults']), on(case['varargs']), nl(case['kwonly']),
+                    prs(case['kwdefaults']), on(case['varkw']), prs(case['ann']), on(case['ret']),
+                    str(case['async']), on(case['doc']), on(case['module']), ops]
+            for pos, kws in case['calls']:
+                toks.append('%s/%s' % (nl(pos), prs(kws)))
+            return ' '.join(toks)
         toks = [nl(case['args']), nl(case['defaults']), on(case['varargs']), nl(case['kwonly']),
                 prs(case['kwdefaults']), on(case['varkw']), prs(case['ann']), on(case['ret']),
                 str(case['async']), on(case['doc']), on(case['module']), nl(case['injected']),
@@ -352,12 +407,13 @@ class C13(Property):
     def _impl(self, case, funcutils):
         self._vals = vals = Vals()
         is_async = bool(case['async'])
-        plain = not case['injected'] and not case['expected']
+        history = 'ops' in case
+        plain = not history and not case['injected'] and not case['expected']
         ns = {'D': vals, 'A': vals}
         if case['module'] is not None:
             ns['__name__'] = 'mod%d' % case['module']
         exec(source_of(case), ns)
-        fn = ns['fn']
+        fn = ns[FNAMES[case.get('fname', 0)]]
         rec = []
         if plain and is_async:
             async def wrapper(*a, **k):
@@ -375,6 +431,33 @@ class C13(Property):
                 rec.append((a, k))
         obs = {'fsig': dump_sig(fn), 'fmeta': [fn.__name__, fn.__doc__, fn.__module__],
                'fasync': int(inspect.iscoroutinefunction(fn))}
+        if history:
+            try:
+                fb = funcutils.FunctionBuilder.from_func(fn)
+                for op in case['ops']:
+                    if op[0] == 'r':
+                        fb.remove_arg(pn(op[1]))
+                    elif op[2] is None:
+                        fb.add_arg(pn(op[1]), **({'kwonly': True} if op[0] == 'k' else {}))
+                    else:
+                        fb.add_arg(pn(op[1]), vals[op[2]], **({'kwonly': True} if op[0] == 'k' else {}))
+            except Exception as e:
+                obs['exc'] = exc_name(e)
+                obs['stage'] = 'ops'
+                return obs
+            names = list(fb.get_arg_names())
+            dd = fb.get_defaults_dict()
+            obs['fb'] = {'names': names, 'required': list(fb.get_arg_names(only_required=True)),
+                         'dd': [[n, vnum(dd[n]) if n in dd else None] for n in names],
+                         'sig_str': fb.get_sig_str(with_annotations=False), 'inv_str': fb.get_invocation_str()}
+            fb.body = 'return %s_call(%s)' % ('await ' if fb.is_async else '', fb.get_invocation_str())
+            try:
+                w = fb.get_func(execdict={'_call': wrapper})
+            except Exception as e:
+                obs['exc'] = exc_name(e)
+                obs['stage'] = 'get_func'
+                return obs
+            return self.observe(case, obs, fn, w, rec, plain, is_async)
         inj_arg, exp_arg = self.spell(case)
         kw = {}
         if not case['opts'][0]:
@@ -390,6 +473,10 @@ class C13(Property):
             obs['exc'] = exc_name(e)
             obs['stage'] = 'wraps'
             return obs
+        return self.observe(case, obs, fn, w, rec, plain, is_async)
+
+    def observe(self, case, obs, fn, w, rec, plain, is_async):
+        vals = self._vals
         obs['wsig'] = dump_sig(w)
         obs['wmeta'] = [getattr(w, '__name__', None), getattr(w, '__doc__', None), getattr(w, '__module__', None)]
         obs['wasync'] = int(inspect.iscoroutinefunction(w))
@@ -432,9 +519,8 @@ class C13(Property):
     # ------------------------------------------------------------------ canonical text (same as the driver's)
     @staticmethod
     def _num(name):
-        if isinstance(name, str) and name[:1] == 'p' and name[1:].isdigit():
-            return name[1:]
-        return '?%s' % (name,)
+        n = name_id(name)
+        return '?%s' % (name,) if n is None else str(n)
 
     def render(self, case, obs):
         num = self._num
@@ -457,7 +543,7 @@ class C13(Property):
         if odd:
             sig += ' posonly!'
         name, doc, module = obs['wmeta']
-        nm = '1' if name == 'fn' else '?%s' % name
+        nm = '1' if name == FNAMES[case.get('fname', 0)] else '?%s' % name
         if doc is None:
             dc = '-'
         elif isinstance(doc, str) and doc[:3] == 'doc' and doc[3:].isdigit():
@@ -474,7 +560,7 @@ class C13(Property):
         meta = '%s %s %s %s %d' % (nm, dc, md, wr, obs['wasync'])
         anns = ','.join('%s:%s' % (num(p[0]), '-' if p[3] is None else p[3]) for p in ws['params'])
         anns += ' r:%s' % ('-' if ws['ret'] is None else ws['ret'])
-        d_txt, i_txt = self.source_parts(obs['source'])
+        d_txt, i_txt = [''.join(t.split()) for t in self.source_parts(obs['source'])]   # modulo white space
         outs = []
         plain = not case['injected'] and not case['expected']
         for o in obs['calls']:
@@ -513,23 +599,20 @@ class C13(Property):
 
     @staticmethod
     def source_parts(src):
-        """(`(def items)`, `(invocation items)`) out of the generated source text"""
+        """(`(def items)`, `(invocation items)`) out of the generated source text; identifiers are
+        rewritten to p<id> so that the text is the driver's"""
         if not isinstance(src, str):
             return '?nosource', '?nosource'
         lines = src.split('\n')
-        head = lines[0]
-        if head.startswith('async '):
-            head = head[len('async '):]
-        d_txt = head[len('def fn'):-1] if head.startswith('def fn') and head.endswith(':') else '?' + head
-        body = lines[1].strip() if len(lines) > 1 else ''
-        if not body.startswith('return '):
-            return d_txt, '?' + body
-        body = body[len('return '):]
-        if body.startswith('await '):
-            body = body[len('await '):]
-        if not body.startswith('_call('):
-            return d_txt, '?' + body
-        return d_txt, body[len('_call'):]
+        m = re.match(r'^(?:async )?def \w+(\(.*\)):$', lines[0])
+        d_txt = m.group(1) if m else '?' + lines[0]
+        m = re.match(r'^\s*return (?:await )?_+call(\(.*\))$', lines[1]) if len(lines) == 2 else None
+        i_txt = m.group(1) if m else '?' + '|'.join(lines[1:])
+
+        def ident(mm):
+            n = name_id(mm.group(0))
+            return mm.group(0) if n is None else 'p%d' % n
+        return re.sub(r'[A-Za-z_]\w*', ident, d_txt), re.sub(r'[A-Za-z_]\w*', ident, i_txt)
 
     # ------------------------------------------------------------------ oracle (independent of the model)
     def oracle(self, case, obs):
